@@ -2,6 +2,7 @@
    ExtrOcamlBasic only: bool, option, list, prod, unit, sumbool map to OCaml's; nat, N, Z, positive stay the
    extracted inductives. *)
 From Coq Require Import Extraction ExtrOcamlBasic.
-From PV Require Import Print.Model Print.Decl.
+From PV Require Import Print.Model Print.Decl Print.Imports.
 Extraction Language OCaml.
-Extraction "decl_model.ml" print_unit parse_unit norm_unit wf_unit stable_unit print_fsig parse_fsig norm_fsig wf_fsig mkCtx.
+Extraction "decl_model.ml" print_unit parse_unit norm_unit wf_unit stable_unit print_fsig parse_fsig norm_fsig wf_fsig mkCtx
+  import_lines typing_events wf_imports parse_text print_text norm_iunit mkNT mkIU net.
